@@ -266,6 +266,12 @@ Step(t) ==
 Next == (\E t \in Tasks : Step(t)) \/ DropPool
 Spec == Init /\ [][Next]_vars
 
+\* liveness: every task eventually takes the steps of the operation it is in, and gives back what it holds
+Progress(t) ==
+  \/ GAcq(t) \/ GWaitPoll(t) \/ GPop(t) \/ GClosed(t) \/ Tk(t) \/ DPush(t) \/ DAdd(t) \/ DClean(t)
+  \/ AAcq(t) \/ AWaitPoll(t) \/ APush(t) \/ AAdd(t) \/ CSem(t) \/ CSsem(t) \/ CClear(t)
+FairSpec == Spec /\ \A t \in Tasks : WF_vars(Progress(t)) /\ \A o \in Objs : WF_vars(StartReturn(t, o))
+
 SiteOf(l) ==
   CASE l = "g_acq" -> "u.get.acquire" [] l = "g_pop" -> "u.get.pop" [] l = "g_closed" -> "u.get.closed"
     [] l = "tk" -> "u.take" [] l = "d_push" -> "u.drop.push" [] l = "d_add" -> "u.drop.add"
@@ -310,6 +316,14 @@ Inv_C05_status == (Quiescent /\ ~poolGone) =>
   /\ (IF avail < 0 THEN 0 - avail ELSE 0) = Cardinality(Blocked)
 Step_C05_tryadd == \A t \in Tasks : (pc[t] = "a_acq" /\ pc'[t] = "idle" /\ res'[t] = "timeout") => ssem.p = 0
 Act_C05_tryadd == [][Step_C05_tryadd]_vars
+
+\* C05 (liveness): a get() that is waiting is completed - with an object as soon as one comes back,
+\* or with an error - unless no object can come back: nothing is queued and whoever holds an object is
+\* itself stuck waiting (or the objects have been taken out of the pool for good)
+Starved == queue = <<>> /\ \A u \in Tasks : held[u] # {} => pc[u] \in {"g_wait", "a_wait"}
+Live_C05_get == \A t \in Tasks : (pc[t] = "g_wait") ~> (pc[t] # "g_wait" \/ Starved)
+\* an add() that is waiting for a free slot is completed once a slot is given up (take / remove) or the pool is closed
+Live_C05_add == \A t \in Tasks : (pc[t] = "a_wait" /\ (t \in ssem.h \/ ssem.c)) ~> (pc[t] # "a_wait")
 
 \* C12
 Inv_C12_nounderflow == size >= 0
